@@ -28,6 +28,9 @@ CLASS_FIELDS = {
     # a whole HRG: label tables, rule table (rules as snapshots) and a start symbol that is set
     "HRGFull": {"_node_labels": "dict[str,NodeLabel]", "_edge_labels": "dict[str,EdgeLabel]",
                 "_rules": "dict[EdgeLabel,seq[RuleV]]", "_start": "EdgeLabel"},
+    # a MultiTensor as far as its keys go: the shapes (one immutable mapping per index position) and the block table
+    "MultiTensor": {"shapes": "tup[dictv[PyVal,PyVal],dictv[PyVal,PyVal]]", "semiring": "opaque",
+                    "_dict": "dict[seq[PyVal],PyVal]"},
     "HRG": {"_node_labels": "dict[str,NodeLabel]", "_edge_labels": "dict[str,EdgeLabel]",
             "_rules": "dict[EdgeLabel,seq[RuleV]]", "_start": "EdgeLabel"},
     # an HRG as far as its start symbol goes
